@@ -23,15 +23,19 @@ EXTENDS VerifCommon
 CONSTANTS Paths, Reqs, ReqKind,      \* ReqKind[r] \in {"add", "api", "remove"}
           WithReload, WithShutdown,
           EscapePathCtx, EscapePMCtx,
-          CountPending               \* the manager honours pendingRequests in closePathIfIdle
+          CountPending,              \* the manager honours pendingRequests in closePathIfIdle
+          WithHotReload,             \* a reload that changes only hot-reloadable fields of the path's configuration
+          SyncHotReload              \* deviation: the manager hands the new configuration to the path loop ITSELF
+                                     \* (pa.reloadConf(c) instead of go pa.reloadConf(c)); FALSE = the code
 
 VARIABLES pm,        \* [pc: "select" | "closing" | "done", closing: path being waited for]
           pa,        \* p -> [pc: "none" | "select" | "toPM" | "tail" | "done", ctx: cancelled?, pending, idleAsk]
           rq,        \* r -> [pc: "new" | "toPM" | "toPath" | "done", path, res]
           rl,        \* reload: "new" | "sent" | "done" | "off"
           sd,        \* shutdown: "new" | "cancelled" | "done" | "off"
-          pmCtx      \* manager context cancelled
-vars == <<pm, pa, rq, rl, sd, pmCtx>>
+          pmCtx,     \* manager context cancelled
+          hr         \* hot reload: "off" | "new" | "inflight" (goroutine go pa.reloadConf spawned) | "done"
+vars == <<pm, pa, rq, rl, sd, pmCtx, hr>>
 
 ThePath == CHOOSE p \in Paths : TRUE
 
@@ -41,6 +45,7 @@ Init == /\ pm = [pc |-> "select", closing |-> "none"]
         /\ rl = IF WithReload THEN "new" ELSE "off"
         /\ sd = IF WithShutdown THEN "new" ELSE "off"
         /\ pmCtx = FALSE
+        /\ hr = IF WithHotReload THEN "new" ELSE "off"
 
 PMReady == pm.pc = "select" /\ ~pmCtx      \* a select with a cancelled context may also take its Done branch; see PMExit
 PathReady(p) == pa[p].pc = "select"
@@ -49,7 +54,7 @@ PathReady(p) == pa[p].pc = "select"
 Start(r) == /\ rq[r].pc = "new"
             /\ rq' = [rq EXCEPT ![r].pc = IF ReqKind[r] = "remove" THEN "toPath" ELSE "toPM",
                                 ![r].path = IF ReqKind[r] = "remove" THEN ThePath ELSE "none"]
-            /\ UNCHANGED <<pm, pa, rl, sd, pmCtx>>
+            /\ UNCHANGED <<pm, pa, rl, sd, pmCtx, hr>>
 
 \* first hop: rendezvous with the manager loop; the manager creates the path if needed, counts the
 \* pending request and answers (the client is waiting for the answer, so the answer is immediate)
@@ -60,12 +65,12 @@ HopPM(r) ==
                                   THEN [pc |-> "select", ctx |-> pmCtx, pending |-> (IF ReqKind[r] = "add" THEN 1 ELSE 0), idleAsk |-> FALSE]
                                   ELSE [@ EXCEPT !.pending = @ + (IF ReqKind[r] = "add" THEN 1 ELSE 0)]]
        /\ rq' = [rq EXCEPT ![r].pc = "toPath", ![r].path = p]
-    /\ UNCHANGED <<pm, rl, sd, pmCtx>>
+    /\ UNCHANGED <<pm, rl, sd, pmCtx, hr>>
 \* escape of the first hop: the manager context is cancelled
 HopPMEscape(r) ==
     /\ rq[r].pc = "toPM" /\ pmCtx /\ EscapePMCtx
     /\ rq' = [rq EXCEPT ![r].pc = "done", ![r].res = "terminated"]
-    /\ UNCHANGED <<pm, pa, rl, sd, pmCtx>>
+    /\ UNCHANGED <<pm, pa, rl, sd, pmCtx, hr>>
 
 \* second hop: rendezvous with the path loop; the path answers at once. Afterwards the path may
 \* have to tell the manager something (setPathReady / closePathIfIdle): it goes to "toPM".
@@ -76,12 +81,12 @@ HopPath(r, tell) ==
                         ![p].pending = IF ReqKind[r] = "add" /\ @ > 0 THEN @ - 1 ELSE @,
                         ![p].idleAsk = tell /\ ReqKind[r] # "add"]
     /\ rq' = [rq EXCEPT ![r].pc = "done", ![r].res = "ok"]
-    /\ UNCHANGED <<pm, rl, sd, pmCtx>>
+    /\ UNCHANGED <<pm, rl, sd, pmCtx, hr>>
 \* escape of the second hop: the path context is cancelled (path is terminating or gone)
 HopPathEscape(r) ==
     /\ rq[r].pc = "toPath" /\ rq[r].path # "none" /\ pa[rq[r].path].ctx
     /\ rq' = [rq EXCEPT ![r].pc = "done", ![r].res = "terminated"]
-    /\ UNCHANGED <<pm, pa, rl, sd, pmCtx>>
+    /\ UNCHANGED <<pm, pa, rl, sd, pmCtx, hr>>
 
 \* ---- the path tells the manager (setPathReady, setPathNotReady, closePathIfIdle)
 PathToPM(p) ==
@@ -92,33 +97,33 @@ PathToPM(p) ==
             /\ pa' = [pa EXCEPT ![p].pc = "select", ![p].ctx = TRUE, ![p].idleAsk = FALSE]
        ELSE /\ pa' = [pa EXCEPT ![p].pc = "select", ![p].idleAsk = FALSE]
             /\ UNCHANGED pm
-    /\ UNCHANGED <<rq, rl, sd, pmCtx>>
+    /\ UNCHANGED <<rq, rl, sd, pmCtx, hr>>
 PathToPMEscape(p) ==
     /\ pa[p].pc = "toPM"
     /\ \/ (pa[p].ctx /\ EscapePathCtx)
        \/ (pmCtx /\ EscapePMCtx)
     /\ pa' = [pa EXCEPT ![p].pc = "select", ![p].idleAsk = FALSE]
-    /\ UNCHANGED <<pm, rq, rl, sd, pmCtx>>
+    /\ UNCHANGED <<pm, rq, rl, sd, pmCtx, hr>>
 
 \* ---- path termination: the select sees ctx.Done; tail of run(): removePath (a send with escapes)
 PathSeesDone(p) ==
     /\ pa[p].pc = "select" /\ pa[p].ctx
     /\ pa' = [pa EXCEPT ![p].pc = "tail"]
-    /\ UNCHANGED <<pm, rq, rl, sd, pmCtx>>
+    /\ UNCHANGED <<pm, rq, rl, sd, pmCtx, hr>>
 PathTailSend(p) ==     \* removePath delivered to the manager loop
     /\ pa[p].pc = "tail" /\ pm.pc = "select"
     /\ pa' = [pa EXCEPT ![p].pc = "done"]
-    /\ UNCHANGED <<pm, rq, rl, sd, pmCtx>>
+    /\ UNCHANGED <<pm, rq, rl, sd, pmCtx, hr>>
 PathTailEscape(p) ==   \* ... or the escape (the path context is cancelled by now)
     /\ pa[p].pc = "tail" /\ (EscapePathCtx \/ (pmCtx /\ EscapePMCtx))
     /\ pa' = [pa EXCEPT ![p].pc = "done"]
-    /\ UNCHANGED <<pm, rq, rl, sd, pmCtx>>
+    /\ UNCHANGED <<pm, rq, rl, sd, pmCtx, hr>>
 
 \* ---- the manager waits for a path it is closing
 PMClosed ==
     /\ pm.pc = "closing" /\ pa[pm.closing].pc = "done"
     /\ pm' = [pc |-> "select", closing |-> "none"]
-    /\ UNCHANGED <<pa, rq, rl, sd, pmCtx>>
+    /\ UNCHANGED <<pa, rq, rl, sd, pmCtx, hr>>
 
 \* ---- reload that removes the path's configuration: doReloadConf closes the path
 ReloadSend ==
@@ -129,11 +134,34 @@ ReloadSend ==
        ELSE /\ pm' = [pc |-> "closing", closing |-> p]
             /\ pa' = [pa EXCEPT ![p].ctx = TRUE]
     /\ rl' = "done"
-    /\ UNCHANGED <<rq, sd, pmCtx>>
+    /\ UNCHANGED <<rq, sd, pmCtx, hr>>
 ReloadEscape ==
     /\ rl = "new" /\ pmCtx /\ EscapePMCtx
     /\ rl' = "done"
-    /\ UNCHANGED <<pm, pa, rq, sd, pmCtx>>
+    /\ UNCHANGED <<pm, pa, rq, sd, pmCtx, hr>>
+
+\* ---- reload that changes only hot-reloadable fields: doReloadConf does `go pa.reloadConf(c)`, the goroutine
+\* rendezvous with the path loop (or escapes on the path context). With SyncHotReload the manager loop makes that
+\* send itself: while it waits for the path loop, the path loop may be waiting for the manager loop.
+HotReloadSend ==
+    /\ hr = "new" /\ pm.pc = "select"
+    /\ LET p == ThePath IN
+       IF pa[p].pc \in {"none", "done"}
+       THEN hr' = "done" /\ UNCHANGED pm
+       ELSE IF SyncHotReload THEN hr' = "inflight" /\ pm' = [pc |-> "reloading", closing |-> p]
+            ELSE hr' = "inflight" /\ UNCHANGED pm
+    /\ UNCHANGED <<pa, rq, rl, sd, pmCtx>>
+HotReloadEscapePM ==
+    /\ hr = "new" /\ pmCtx /\ EscapePMCtx
+    /\ hr' = "done"
+    /\ UNCHANGED <<pm, pa, rq, rl, sd, pmCtx>>
+\* the delivery reaches the path loop in its select (or the path is going away: escape on pa.ctx)
+HotDeliver ==
+    /\ hr = "inflight"
+    /\ LET p == ThePath IN PathReady(p) \/ pa[p].ctx \/ pa[p].pc \in {"none", "done"}
+    /\ hr' = "done"
+    /\ pm' = IF pm.pc = "reloading" THEN [pc |-> "select", closing |-> "none"] ELSE pm
+    /\ UNCHANGED <<pa, rq, rl, sd, pmCtx>>
 
 \* ---- shutdown
 ShutdownCancel ==
@@ -141,25 +169,27 @@ ShutdownCancel ==
     /\ pmCtx' = TRUE
     /\ pa' = [p \in Paths |-> IF pa[p].pc \in {"none", "done"} THEN pa[p] ELSE [pa[p] EXCEPT !.ctx = TRUE]]
     /\ sd' = "cancelled"
-    /\ UNCHANGED <<pm, rq, rl>>
+    /\ UNCHANGED <<pm, rq, rl, hr>>
 PMExit ==
     /\ pm.pc = "select" /\ pmCtx
     /\ pm' = [pc |-> "done", closing |-> "none"]
-    /\ UNCHANGED <<pa, rq, rl, sd, pmCtx>>
+    /\ UNCHANGED <<pa, rq, rl, sd, pmCtx, hr>>
 ShutdownDone ==
     /\ sd = "cancelled" /\ pm.pc = "done" /\ \A p \in Paths : pa[p].pc \in {"none", "done"}
     /\ sd' = "done"
-    /\ UNCHANGED <<pm, pa, rq, rl, pmCtx>>
+    /\ UNCHANGED <<pm, pa, rq, rl, pmCtx, hr>>
 
 AllDone == /\ \A r \in Reqs : rq[r].pc = "done"
            /\ rl \in {"done", "off"}
            /\ sd \in {"done", "off"}
+           /\ hr \in {"done", "off"}
 Terminated == AllDone /\ UNCHANGED vars
 
 Next == \/ \E r \in Reqs : Start(r) \/ HopPM(r) \/ HopPMEscape(r) \/ HopPathEscape(r)
                             \/ HopPath(r, TRUE) \/ HopPath(r, FALSE)
         \/ \E p \in Paths : PathToPM(p) \/ PathToPMEscape(p) \/ PathSeesDone(p) \/ PathTailSend(p) \/ PathTailEscape(p)
         \/ PMClosed \/ ReloadSend \/ ReloadEscape \/ ShutdownCancel \/ PMExit \/ ShutdownDone
+        \/ HotReloadSend \/ HotReloadEscapePM \/ HotDeliver
         \/ Terminated
 
 Fairness == /\ \A r \in Reqs : WF_vars(Start(r)) /\ WF_vars(HopPM(r)) /\ WF_vars(HopPMEscape(r))
@@ -168,11 +198,12 @@ Fairness == /\ \A r \in Reqs : WF_vars(Start(r)) /\ WF_vars(HopPM(r)) /\ WF_vars
                                 /\ WF_vars(PathTailSend(p) \/ PathTailEscape(p))
             /\ WF_vars(PMClosed) /\ WF_vars(ReloadSend) /\ WF_vars(ReloadEscape)
             /\ WF_vars(ShutdownCancel) /\ WF_vars(PMExit) /\ WF_vars(ShutdownDone)
+            /\ WF_vars(HotReloadSend) /\ WF_vars(HotReloadEscapePM) /\ WF_vars(HotDeliver)
 Spec == Init /\ [][Next]_vars /\ Fairness
 
 \* every started operation completes, shutdown terminates
 Completes == <>AllDone
 \* a request is never answered twice / a path is never waited for by a manager that left
-TypeOK == /\ pm.pc \in {"select", "closing", "done"}
+TypeOK == /\ pm.pc \in {"select", "closing", "reloading", "done"}
           /\ \A p \in Paths : pa[p].pending >= 0
 =============================================================================
